@@ -94,6 +94,15 @@ func (c Cfg) AppArgs(l1sock, l2sock string) []string {
 		a = append(a, "--l1-batched", "--batch-size", "2", "--batch-delay", "100", "--batch-read-buf-size", "512", "--batch-write-buf-size", "512",
 			"--batch-eval-interval", "4000000000", "--batch-expand-load-factor-ratio", "1000", "--batch-expand-overloaded-ratio", "1000")
 	}
+	for _, also := range strings.Split(c.Also, ",") {
+		switch also {
+		case "chunked":
+			a = append(a, "--chunked")
+		case "l1-batched":
+			a = append(a, "--l1-batched", "--batch-size", "2", "--batch-delay", "100", "--batch-read-buf-size", "512", "--batch-write-buf-size", "512",
+				"--batch-eval-interval", "4000000000", "--batch-expand-load-factor-ratio", "1000", "--batch-expand-overloaded-ratio", "1000")
+		}
+	}
 	if c.Orca != "l1only" {
 		a = append(a, "--l2-enabled", "--l2-sock", l2sock)
 	}
@@ -235,7 +244,10 @@ func AppCfgsRare() []Cfg {
 			Cfg{Orca: "l1only", Lock: "none", Proto: p, L1H: "std", App: true, Unix: true},
 			Cfg{Orca: "l1l2b", Lock: "multi", Proto: p, L1H: "std", App: true, Unix: true, Conc: 2},
 			Cfg{Orca: "l1only", Lock: "none", Proto: p, L1H: "inmem", App: true},
-			Cfg{Orca: "l1l2b", Lock: "single", Proto: p, L1H: "inmem", App: true, Conc: 2})
+			Cfg{Orca: "l1l2b", Lock: "single", Proto: p, L1H: "inmem", App: true, Conc: 2},
+			// redundant handler flags: the program's precedence decides, for both ports alike
+			Cfg{Orca: "l1l2b", Lock: "none", Proto: p, L1H: "chunked", App: true, Also: "l1-batched"},
+			Cfg{Orca: "l1l2b", Lock: "multi", Proto: p, L1H: "inmem", App: true, Also: "chunked,l1-batched", Conc: 2})
 	}
 	return out
 }
